@@ -1,5 +1,4 @@
-//go:build verif
-
+//go:build verif && verif_c14
 // Verification hooks for property C14 (damaged or hostile input yields errors,
 // not crashes). Thin exported wrappers around the unexported post-decode
 // functions so that the correspondence harness can drive them with arbitrary
